@@ -157,6 +157,37 @@ rewrite -scalemxAl scalerA mulVf // scale1r mulmxK //.
 by rewrite -scalemxAl scalerA mulfV // scale1r mulmxKV.
 Qed.
 
+(* all degrees, both composition orders, any pixel size *)
+Lemma daun_roundtrip_all h (X : 'M[F]_(h, n)) (dr : F) : dr != 0 ->
+  (is_trig_mx B ->
+   [/\ daun_inverse_deg0_none_dr B dr (daun_forward_deg0_none_dr B dr X) = X /\
+       daun_forward_deg0_none_dr B dr (daun_inverse_deg0_none_dr B dr X) = X,
+       daun_inverse_deg1_none_dr B dr (daun_forward_deg1_none_dr B dr X) = X /\
+       daun_forward_deg1_none_dr B dr (daun_inverse_deg1_none_dr B dr X) = X &
+       daun_inverse_deg2_none_dr B dr (daun_forward_deg2_none_dr B dr X) = X /\
+       daun_forward_deg2_none_dr B dr (daun_inverse_deg2_none_dr B dr X) = X]) /\
+  (daun_inverse_deg3_none_dr B dr (daun_forward_deg3_none_dr B dr X) = X /\
+   daun_forward_deg3_none_dr B dr (daun_inverse_deg3_none_dr B dr X) = X).
+Proof.
+move=> dr0; split; last exact: daun_roundtrip_deg3_dr.
+by move=> tB; split; exact: (daun_roundtrip_tri_dr X tB dr0).
+Qed.
+
+Lemma daun_roundtrip_all_dr1 h (X : 'M[F]_(h, n)) :
+  (is_trig_mx B ->
+   [/\ daun_inverse_deg0_none_dr1 B (daun_forward_deg0_none_dr1 B X) = X /\
+       daun_forward_deg0_none_dr1 B (daun_inverse_deg0_none_dr1 B X) = X,
+       daun_inverse_deg1_none_dr1 B (daun_forward_deg1_none_dr1 B X) = X /\
+       daun_forward_deg1_none_dr1 B (daun_inverse_deg1_none_dr1 B X) = X &
+       daun_inverse_deg2_none_dr1 B (daun_forward_deg2_none_dr1 B X) = X /\
+       daun_forward_deg2_none_dr1 B (daun_inverse_deg2_none_dr1 B X) = X]) /\
+  (daun_inverse_deg3_none_dr1 B (daun_forward_deg3_none_dr1 B X) = X /\
+   daun_forward_deg3_none_dr1 B (daun_inverse_deg3_none_dr1 B X) = X).
+Proof.
+split; last exact: daun_roundtrip_deg3.
+by move=> tB; split; exact: (daun_roundtrip_tri X tB).
+Qed.
+
 (* Tikhonov expression at strength zero is the plain inverse (any L) *)
 Lemma tikhonov_zero (L : 'M[F]_n) : B^T *m invmx (B *m B^T + 0 *: L) = invmx B.
 Proof.
